@@ -12,7 +12,7 @@ REPO = os.environ.get("GLYLES_REPO", "/repo")
 LEAN_DIR = os.path.join(VERIF, "lean")
 DRIVER = os.path.join(LEAN_DIR, ".lake/build/bin/driver")
 BUILD = os.path.join(VERIF, "build")
-EVIDENCE = os.path.join(VERIF, "evidence")
+EVIDENCE = os.environ.get("VERIF_EVIDENCE_DIR", os.path.join(VERIF, "evidence"))   # trial runs against seeded changes write elsewhere
 REPLAY = os.path.join(VERIF, "replay")
 CORPUS = os.path.join(VERIF, "corpus")
 GUARD = "GLYLES_VERIF"
